@@ -96,6 +96,8 @@ def gen_history(rng, steps, ndisp, nthreads, flavour):
                   "k": rng.choice(["event", "event", "span", "probe"])}
             if st["k"] == "event" and rng.random() < 0.06:
                 st["boom"] = True       # the receiving collector's callback panics (caught); later emissions are unaffected
+            elif st["k"] == "event" and rng.random() < 0.08:
+                st["reenter"] = True    # the receiving collector emits from inside its callback
             out.append(st)
     return out
 
